@@ -234,7 +234,8 @@ def main():
     # (3) API sequences with a search path, annotations and pointer-valued options
     A2 = Schema('A2', apibfs.A1.opts + [Opt('ptr', 'p', '', None, 'pf'), Opt('ptr', 'pl', 'L', None, 'pf')])
     ops = apibfs.ops_alphabet() + [('setopt', b'p', b'v'), ('setopt', b'pl', b'v'), ('setmulti', b'pl', [b'a', b'b']),
-                                   ('setmulti', b'p', [b'a']), ('setcomment', b'mt', b'c'), ('setcomment', b'pl', b'c')]
+                                   ('setmulti', b'p', [b'a']), ('setcomment', b'mt', b'c'), ('setcomment', b'pl', b'c'),
+                                   ('set', 'str', b's', None, None), ('set', 'str', b'sl', None, 0), ('set', 'str', b'sd', None, 1), ('oset', 'str', b'sd', None, 0)]   # NULL over a held string
     apibfs.run_bfs(ck, A2, CM, [b'', b'mt a { x = 3 } mt b { } m { } pl = {q}'], ops, 2 if quick else 3, hygiene=True,
                    setup_lines=['cb_quiet 1', 'addpath A ' + enc(b'/verif/build'), 'addpath A ' + enc(b'/nonexistent')], label='api+hygiene')
     # reduced alphabet, deeper: repeated titles (instances replaced in place), re-opened sections, calls - with a search path set
